@@ -856,6 +856,20 @@ impl BigDecimal {
 
         let target_precision = DEFAULT_PRECISION;
 
+        if self.is_negative() {
+            // e^-x = 1/e^x: summing the alternating series directly loses
+            // the significant digits of the result to cancellation
+            let pos_exp = self.abs().exp_untrimmed(target_precision);
+            let quotient = impl_division(BigInt::one(), &pos_exp.int_val, -pos_exp.scale, target_precision);
+            // an exact quotient may be shorter: always deliver the target precision
+            return quotient.with_prec(target_precision);
+        }
+
+        self.exp_untrimmed(target_precision).with_prec(target_precision)
+    }
+
+    /// Taylor series of e^x, returning `target_precision` + 5 significant digits
+    fn exp_untrimmed(&self, target_precision: u64) -> BigDecimal {
         let precision = self.digits();
 
         let mut term = self.clone();
@@ -871,7 +885,7 @@ impl BigDecimal {
 
             let trimmed_result = result.with_prec(target_precision + 5);
             if prev_result == trimmed_result {
-                return trimmed_result.with_prec(target_precision);
+                return trimmed_result;
             }
             prev_result = trimmed_result;
         }
